@@ -200,25 +200,28 @@ class SqliteStateStore(Generic[MODEL_T]):
 
     async def set_state(self, state: MODEL_T) -> None:
         """Replace or merge into the current state model."""
-        conn = self._connect()
-        try:
-            cursor = conn.cursor()
-            cursor.execute(
-                "SELECT state_json FROM workflow_state WHERE run_id = ?",
-                (self._run_id,),
-            )
-            row = cursor.fetchone()
+        # serialise with edit_state(): a write must not be overwritten by an
+        # edit block that started before it
+        async with self._lock:
+            conn = self._connect()
+            try:
+                cursor = conn.cursor()
+                cursor.execute(
+                    "SELECT state_json FROM workflow_state WHERE run_id = ?",
+                    (self._run_id,),
+                )
+                row = cursor.fetchone()
 
-            current_state = (
-                self._create_default_state()
-                if row is None
-                else self._deserialize_state(row[0])
-            )
-            merged = merge_state(current_state, state)
-            self._save_state(merged, conn)  # type: ignore[arg-type]
-            conn.commit()
-        finally:
-            self._release(conn)
+                current_state = (
+                    self._create_default_state()
+                    if row is None
+                    else self._deserialize_state(row[0])
+                )
+                merged = merge_state(current_state, state)
+                self._save_state(merged, conn)  # type: ignore[arg-type]
+                conn.commit()
+            finally:
+                self._release(conn)
 
     async def get(self, path: str, default: Any = ...) -> Any:
         """Get a nested value using dot-separated paths."""
